@@ -696,6 +696,9 @@ def zoo(tier='quick'):
         c['CA.HH'].AddVariable('EXOGENOUS_LEVEL', 'a level the user calls exogenous', '2.0')
         c['CA.HH'].AddVariable('TARGET', 'uses it', 'EXOGENOUS_LEVEL + 0.5*AfterTax')
         c['CA.GOV'].AddVariable('NONEXOGENOUS', 'another one', '3.0 + T')
+        # ... and model-level equations (their names are not qualified by a sector code)
+        c.model.AddGlobalEquation('EXOGENOUS_RATE', 'a rate the user calls exogenous', '0.05')
+        c.model.AddGlobalEquation('DOUBLE_RATE', 'uses it first thing', 'EXOGENOUS_RATE*2')
     p.post(exo_named_post)
     Z.append(p)
     Z.append(two_zone('xz_gold_mixed', dict(gov='gold_gov', mm=True), dict(gov='cons', caps=True, firm='fm1'),
